@@ -137,4 +137,14 @@ class RealFs(RealVolumeOf, Fs):
         return fs.write_file(path, content)
 
     def lexists(selfs, path):
-        return os.path.lexists(path)
+        try:
+            os.lstat(path)
+        except OSError as e:
+            # only "no such entry" means that the path does not exist: a
+            # file that cannot be examined (EACCES, EIO, ELOOP, ...) must
+            # not be skipped silently by -f, the attempt to trash it will
+            # report what is wrong
+            return e.errno not in (errno.ENOENT, errno.ENOTDIR)
+        except ValueError:
+            return False
+        return True
